@@ -82,3 +82,7 @@ Theorem C09_combine_unique_rule : forall xs o, xs <> [] ->
   end.
 Proof. exact combine_unique_rule. Qed.
 Print Assumptions C09_combine_unique_rule.
+
+Theorem C09_dedup_mentions_no_new_license : forall e e', dedup e = Ok e' -> incl (literals e') (literals e).
+Proof. exact dedup_literals. Qed.
+Print Assumptions C09_dedup_mentions_no_new_license.
